@@ -133,6 +133,15 @@ class C17(Check):
     def strategy(self, tier):
         @st.composite
         def gen(draw):
+            if draw(st.integers(0, 3)) == 0:
+                # failures built by a real Scope from what its children raise in one time step
+                kids = []
+                for _ in range(draw(st.integers(1, 5))):
+                    k = draw(st.sampled_from(['raise', 'raise', 'raise', 'pass_cancel', 'cleanup_raise']))
+                    kids.append({'kind': k, 'cls': draw(st.sampled_from(sorted(BASE))), 'rounds': draw(st.integers(0, 2))})
+                handlers = [{'types': draw(st.lists(st.sampled_from(sorted(BASE)), min_size=1, max_size=3, unique=True)),
+                             'open': draw(st.booleans())} for _ in range(draw(st.integers(1, 6)))]
+                return {'scope': kids, 'handlers': handlers + [{'bare': True}]}
             n = draw(st.integers(2, 7))
             forest = [sorted(set(draw(st.lists(st.integers(0, max(i - 1, 0)), max_size=2)))) if i else []
                       for i in range(n)]
@@ -146,8 +155,103 @@ class C17(Check):
             return {'forest': forest, 'raised': raised, 'handlers': handlers}
         return gen()
 
+    def scope_case(self, case, out):
+        """children of one Scope fail in one time step; the failure must be Concurrent[set of their types]"""
+        import usim
+        from usim import Scope, time, instant
+        kids = case['scope']
+        # FIFO model of the rounds of that time step: who fails before the scope's own abort is delivered
+        queue = [(i, k['rounds'] + (1 if k['kind'] == 'pass_cancel' else 0)) for i, k in enumerate(kids)
+                 if k['kind'] != 'cleanup_raise']
+        failed, aborted = [], False
+        while queue:
+            i, r = queue.pop(0)
+            if i == 'CANCEL':
+                aborted = True
+                break
+            if r > 0:
+                queue.append((i, r - 1))
+            else:
+                failed.append(i)
+                if len(failed) == 1:
+                    queue.append(('CANCEL', 0))
+        survivors = {i for i, _ in queue if i != 'CANCEL'}
+        # children closed by the abort whose clean-up raises fail as well (in spawn order of the closing loop)
+        # (without an earlier failure they reach the end of their wait at t=50 and fail there, in spawn order)
+        closed_fail = [i for i, k in enumerate(kids) if k['kind'] == 'cleanup_raise']
+        want_objs = [i for i in failed if kids[i]['kind'] == 'raise'] + closed_fail
+        made = {}
+
+        async def child(i, k, t0):
+            if k['kind'] == 'cleanup_raise':
+                try:
+                    await (time + 50)
+                finally:
+                    made[i] = BASE[k['cls']]()
+                    raise made[i]
+            await (time + 1)
+            for _ in range(k['rounds']):
+                await instant
+            if k['kind'] == 'pass_cancel':
+                await t0                      # raises TaskCancelled, which escapes this child
+            made[i] = BASE[k['cls']]()
+            raise made[i]
+
+        async def idle():
+            await (time + 100)
+
+        result = {}
+
+        async def main():
+            try:
+                async with Scope() as s:
+                    t0 = s.do(idle())
+                    t0.cancel('x')
+                    for i, k in enumerate(kids):
+                        s.do(child(i, k, t0))
+            except BaseException as e:      # noqa
+                result['exc'] = e
+        usim.run(main())
+        exc = result.get('exc')
+        desc = 'children %r' % ([(k['kind'], k['cls'], k['rounds']) for k in kids],)
+        if not want_objs:
+            if exc is not None:
+                out.fail('scope_failure', 'unexpected_exception', '%s: scope raised %r, expected nothing' % (desc, exc))
+            return
+        if not isinstance(exc, Concurrent):
+            out.fail('scope_failure', 'not_concurrent', '%s: scope raised %r' % (desc, exc))
+            return
+        want_types = {BASE[kids[i]['cls']] for i in want_objs}
+        if type(exc) is not Concurrent[tuple(want_types)]:
+            got = {type(c) for c in exc.children}
+            sig = 'type_missing_children' if got < want_types else 'type_wrong'
+            out.fail('scope_failure', sig, '%s: failure is %s, expected Concurrent over %r' % (
+                desc, type(exc).__name__, sorted(t.__name__ for t in want_types)))
+            return
+        if [id(c) for c in exc.children] != [id(made[i]) for i in want_objs]:
+            out.fail('scope_failure', 'children_objects', '%s: children %r' % (desc, exc.children))
+        wd = World(None)
+        raised = [kids[i]['cls'] for i in want_objs]
+        for h in case['handlers']:
+            out.evals += 1
+            if h.get('bare'):
+                ref, H = True, Concurrent
+            else:
+                hts = [BASE[t] for t in h['types']]
+                H = Concurrent[tuple(hts + [...])] if h['open'] else Concurrent[tuple(hts)]
+                ref = wd.match(h['types'], h['open'], raised)
+            if isinstance(exc, H) != ref:
+                out.fail('isinstance', 'scope_built_false_%s' % ('positive' if not ref else 'negative'),
+                         '%s; handler %r: reference %s' % (desc, h, ref))
+        out.nontrivial = len(want_objs) >= 2 or any(k['kind'] != 'raise' for k in kids)
+        out.features.add('scope_built')
+
     def run_case(self, case, tier='quick'):
         out = Outcome()
+        if 'scope' in case:
+            self.scope_case(case, out)
+            out.evals = max(out.evals, 1)
+            return out
         w = World(case.get('forest'))
         raised = case['raised']
         try:
